@@ -14,7 +14,8 @@ from .ref.jwe import _ORDER
 FIX = os.path.join(os.path.dirname(os.path.dirname(os.path.abspath(__file__))), "fixtures")
 
 # ----------------------------------------------------------------- JSON values
-V_SCALARS = [None, True, False, 0, 1, -1, 2 ** 31, 2 ** 64, 1.5, -0.0, 1e100, "", "a", "HS256", "é", "\u0000", "\U0001F600"]
+# strings include text that Unicode normalisation would rewrite: a decomposed sequence (NFD), a singleton (ANGSTROM SIGN), full-width letters
+V_SCALARS = [None, True, False, 0, 1, -1, 2 ** 31, 2 ** 64, 1.5, -0.0, 1e100, "", "a", "HS256", "é", "\u0000", "\U0001F600", "cafe\u0301", "\u212b\uff21"]
 V_CONTAINERS = [[], [""], ["a", "b"], [1], [[]], {}, {"a": 1}]
 
 
